@@ -9,6 +9,10 @@ CHECKS = {
    tech="TLA+ spec LRU.tla: TLC exhaustive model check + TLC-derived tours replayed on the real cache + TLC trace validation of recorded executions",
    text="TLC explores every history of the bounded LRU model (3 keys, capacities default/1/2/3, ttl none/1/2 ticks) and checks capacity, LRU eviction, freshness, sweep and statistics properties in every state/transition; the dumped transition relation is turned into tours executed on the real cache.LRUCache, and those plus seeded random histories on larger domains (20+ keys, default capacity driven past 100, elapsed lifetimes) are validated event by event by TLC against the same specification.",
    note="Assumes the VerifAdvance hook ages entries exactly like elapsed time; trusted: TLC, CommunityModules, the Go driver that logs raw return values/Keys()/Stats()."),
+ "C16": dict(cat="model_checking", ref="DESIGN.md section 5, C16",
+   tech="TLA+ spec History.tla: TLC exhaustive model check over add/save/load/clear/foreign-file histories + TLC-derived tours on the real SearchHistory + TLC trace validation of random executions",
+   text="TLC explores all histories (<= 4/6 steps) of add/save/load/clear with the on-disk file replaced by missing/empty/garbage/valid files carrying nonsensical maxima, checking that recording never crashes, keeps the newest entry, collapses immediate repeats and that load returns what was saved; the transition relation is replayed on the real history.SearchHistory and every recorded execution (tours and long random ones with hostile query strings and damaged files) is validated by TLC, including the recent/top/stats views.",
+   note="Entry identity = digest of all fields; garbage-file outcomes are left free except that recording must keep working; trusted: TLC, Go driver."),
 }
 NOT_APPLICABLE = {}
 
